@@ -770,7 +770,7 @@ def judge(sc, text, waits, rec, sim, st, start_dt, violation, probes, res,
                         first_any = [tk for tk in all_ticks if tk >= due - EPS]
                         if first_any and expect[0] > first_any[0] + EPS:
                             probes['tick_missed_between_test_and_wait'] = 1
-                    if r > due + 2 * tick + EPS:
+                    if r > due + 2 * tick + TOL:
                         violation('late/two-ticks',
                                   '{}: ended {:.6f} s after its due time, '
                                   'more than two ticks of {} s, with no '
@@ -785,7 +785,7 @@ def judge(sc, text, waits, rec, sim, st, start_dt, violation, probes, res,
                 _k, a, _d, r, la, lb = calls[ci][:6]
                 ci += 1
                 if blocks_between(la, lb) > 0 or (
-                        r > a + EPS and not stalled(a, r)):
+                        r > a + TOL and not stalled(a, r)):
                     violation('zero-delay-blocks',
                               '{}: a zero delay blocked on the clock from '
                               't={:.6f} to {:.6f}'.format(where, a, r))
@@ -834,7 +834,7 @@ def judge(sc, text, waits, rec, sim, st, start_dt, violation, probes, res,
                               where, t0_new, m))
             if not stalled(a, max(t0_new, m + 2 * tick)):
                 if m <= a + EPS:
-                    if t0_new > a + EPS:
+                    if t0_new > a + TOL:
                         violation('time-of-day/late',
                                   '{}: pattern already matched on arrival at '
                                   '{:.6f} but the time line restarted at '
@@ -845,7 +845,7 @@ def judge(sc, text, waits, rec, sim, st, start_dt, violation, probes, res,
                     ok_times = zone + [tk for tk in expect
                                        if tk > m + AMBIG][:1]
                     if not any(-EPS <= t0_new - x <= TOL for x in ok_times) or \
-                            t0_new > m + 2 * tick + EPS:
+                            t0_new > m + 2 * tick + TOL:
                         violation('time-of-day/late',
                                   '{}: awaited time arrived at {:.6f}; the '
                                   'time line restarted at {:.6f}, expected '
